@@ -78,12 +78,7 @@ theorem locationLessBody_leaf (self_ : Loc → Loc → Bool) {a b : Loc}
       Loc.partialCount, and_self, if_true] <;>
     (split <;> simp)
 
-/-- a complement around `a` is stripped first -/
-theorem locationLessBody_compl_left (self_ : Loc → Loc → Bool) (c b : Loc) :
-    Gen.locationLessBody self_ (.compl c) b = self_ c b := by
-  simp only [Gen.locationLessBody]
-
-/-- then a complement around `b` -/
+/-- a complement around `b` is stripped (when `a` is not a complement) -/
 theorem locationLessBody_compl_right (self_ : Loc → Loc → Bool) {a : Loc} (ha : ∀ x, a ≠ .compl x)
     (c : Loc) : Gen.locationLessBody self_ a (.compl c) = self_ a c := by
   cases a <;> first | exact absurd rfl (ha _) | simp only [Gen.locationLessBody]
@@ -123,12 +118,14 @@ theorem all_congr_mem {p q : Loc → Bool} : ∀ {ls : List Loc}, (∀ l ∈ ls,
 theorem locationLessBody_eq (self_ : Loc → Loc → Bool) (a b : Loc)
     (h : ∀ a' b', Loc.size a' + Loc.size b' < Loc.size a + Loc.size b → self_ a' b' = Loc.less a' b') :
     Gen.locationLessBody self_ a b = Loc.less a b := by
-  -- (1) complement of `a`
+  -- (1) complement of `a`, (2) complement of `b` (whichever the source strips first when both are
+  -- complements: `Loc.less` does not see either)
   by_cases hca : ∃ c, a = .compl c
   · obtain ⟨c, rfl⟩ := hca
-    rw [locationLessBody_compl_left, h c b (by simp only [Loc.size]; omega), Loc.less_compl_left]
+    cases b <;> simp only [Gen.locationLessBody] <;>
+      rw [h _ _ (by simp only [Loc.size]; omega)] <;>
+      simp only [Loc.less_compl_left, Loc.less_compl_right]
   have hca' : ∀ x, a ≠ .compl x := fun x hx => hca ⟨x, hx⟩
-  -- (2) complement of `b`
   by_cases hcb : ∃ c, b = .compl c
   · obtain ⟨c, rfl⟩ := hcb
     rw [locationLessBody_compl_right self_ hca', h a c (by simp only [Loc.size]; omega),
